@@ -46,3 +46,106 @@ def profile():
 def subchecks(tier):
     return [system_subcheck("restricted", profile(), lambda spec: [Blocking(spec)], nontrivial, classes=classes, obs=True,
                             n={"quick": 9600, "thorough": 50000}, rule="restricted networks; blocked-order model monitor")]
+
+
+# ---- second oracle: independent reference simulator (deterministic core, tie-free inputs) --------------------------------
+from hypothesis import strategies as st   # noqa: E402
+from .. import observe as O               # noqa: E402
+from .. import refdes                     # noqa: E402
+from ..runner import SubCheck             # noqa: E402
+
+ARR = [0.3137, 0.4759, 0.7321, 1.1347, 0.8911, 0.5903, 0.6607, 1.4143]
+SRV = [0.2371, 0.4127, 0.6733, 0.9719, 1.3127, 1.7939, 2.0341, 0.5323, 2.8713, 1.1093]
+
+
+@st.composite
+def ref_case(draw):
+    n = draw(st.integers(1, 3))
+    nodes = [{"servers": {"kind": "int", "c": draw(st.integers(1, 3))}, "cap": draw(st.sampled_from([0, 0, 1, 1, 2, "inf"])),
+              "discipline": draw(st.sampled_from(["FIFO", "FIFO", "LIFO"]))} for _ in range(n)]
+    ncls = draw(st.integers(1, 2))
+    prios = [0] if ncls == 1 else draw(st.sampled_from([[0, 0], [0, 1], [1, 0]]))
+    classes = []
+    for ci in range(ncls):
+        arr = [draw(st.lists(st.sampled_from(ARR), min_size=1, max_size=4)) if draw(st.integers(0, 9)) < 7 else None for _ in range(n)]
+        if ci == ncls - 1 and all(a is None for c in classes for a in c["arrival"]) and all(a is None for a in arr):
+            arr[0] = [0.4759, 1.1347]
+        routes = draw(st.lists(st.lists(st.integers(1, n), min_size=0, max_size=5), min_size=1, max_size=3))
+        # distinct phase per stream so that two streams never fire at the same instant
+        arr = [None if a is None else [round(a[0] + 0.01093 * (ci * 3 + i + 1), 6)] + a[1:] + [round(a[0] + 0.00417 * (i + 1), 6)] for i, a in enumerate(arr)]
+        classes.append({"name": "C%d" % ci, "priority": prios[ci], "arrival": [None if a is None else ["seq", a] for a in arr],
+                        "service": [["keyed", draw(st.lists(st.sampled_from(SRV), min_size=2, max_size=5))] for _ in range(n)],
+                        "routing": {"kind": "process", "routes": routes}})
+    return {"nodes": nodes, "classes": classes, "seed": draw(st.integers(0, 1000)),
+            "plan": {"kind": "max_time", "T": [draw(st.integers(24, 100)) / 4.0 + 0.01371]}, "event_budget": 1500}
+
+
+class _Ties(O.Monitor):
+    def start(self, Q):
+        self.ties = 0
+
+    def after(self, Q, node, etype, nxt):
+        m = nxt.next_event_date
+        if m != float("inf") and sum(1 for nd in Q.active_nodes if nd.next_event_date == m) > 1:
+            self.ties += 1
+        for nd in Q.transitive_nodes:
+            ni = nd.next_individual
+            if isinstance(ni, list) and len(ni) > 1:
+                self.ties += 1
+
+
+def ref_execute(case):
+    ties = _Ties()
+    res = O.run_case(case, [ties])
+    out = {"violations": [], "nontrivial": False, "classes": [], "aborted": res.aborted, "budget_hit": res.budget_hit, "events": res.n_events}
+    if res.aborted or res.budget_hit or res.Q is None:
+        out["classes"] = ["inconclusive"]
+        return out
+    if ties.ties:
+        out["classes"] = ["discarded_tie"]
+        return out
+    Q = res.Q
+    got, rej = [], []
+    for ind in list(Q.nodes[-1].all_individuals) + [i for nd in Q.transitive_nodes for i in O.customers(nd)]:
+        for r in ind.data_records:
+            if r.record_type == "service":
+                got.append((r.id_number, r.node, r.arrival_date, r.service_start_date, r.service_end_date, r.exit_date, r.destination))
+            elif r.record_type == "rejection":
+                rej.append((r.id_number, r.node, r.arrival_date, r.queue_size_at_arrival))
+    got.sort()
+    rej.sort()
+    exp, exp_rej = refdes.simulate(case, case["plan"]["T"][0])
+    if exp is None:
+        out["classes"] = ["discarded_tie"]
+        return out
+
+    def close(a, b):
+        return len(a) == len(b) and all(x[0] == y[0] and x[1] == y[1] and x[-1] == y[-1] and all(abs(p - q) <= 1e-9 for p, q in zip(x[2:-1], y[2:-1]))
+                                        for x, y in zip(a, b))
+    if not close(got, exp):
+        k = 0
+        while k < min(len(got), len(exp)) and close([got[k]], [exp[k]]):
+            k += 1
+        out["violations"].append({"property": ID, "clause": "C07.records-equal-reference-simulator", "site": "refdes",
+                                  "details": {"first_difference": k, "ciw": repr(got[k:k + 2]), "reference": repr(exp[k:k + 2]), "counts": [len(got), len(exp)]}})
+    elif not close([(a, b, c, d) for a, b, c, d in rej], [(a, b, c, d) for a, b, c, d in exp_rej]):
+        out["violations"].append({"property": ID, "clause": "C07.rejections-equal-reference-simulator", "site": "refdes",
+                                  "details": {"ciw": repr(rej[:4]), "reference": repr(exp_rej[:4])}})
+    blocked = sum(1 for r in got if r[5] - r[4] > 1e-12)
+    waited = sum(1 for r in got if r[3] - r[2] > 1e-12)
+    out["nontrivial"] = len(got) >= 10 and blocked >= 1 and waited >= 1
+    out["activity"] = {"records": len(got), "blocked_records": blocked, "waited_records": waited, "rejections": len(rej)}
+    out["classes"] = [k for k, v in (("blocked", blocked), ("waited", waited), ("rejections", len(rej))) if v]
+    out["score"] = blocked
+    return out
+
+
+_base_subchecks = subchecks
+
+
+def subchecks(tier):   # noqa: F811
+    return _base_subchecks(tier) + [
+        SubCheck("refdes", ref_execute, strategy=ref_case(), n={"quick": 4800, "thorough": 40000}, kind="differential", is_spec=False,
+                 rule=("independent reference simulator (vf/refdes.py: fixed servers, FIFO/LIFO, non-pre-emptive priorities, finite capacities with "
+                       "rejection and Type I blocking, scripted routes, id-keyed service times) predicts every service and rejection record of "
+                       "tie-free deterministic networks; non-trivial = >= 10 records with >= 1 blocked and >= 1 waited"))]
